@@ -8,10 +8,7 @@
     fanconvex <face> <k> <d_1 … d_k>           triangulation::fan_convex_cell
     earclip <ccw|cw> <face> <k> <d_1 … d_k>    triangulation::earclip_cell_countercw / _cw
 
-  Positions are exact rationals.  The non-transactional `is_free` of the insertion kernels is
-  evaluated on `s.m`: a transactional op is parsed when its line is read, and inside a `tx` block
-  the session map is unchanged until `endtx`, so `s.m` is the committed map at the start of the
-  transaction in both cases.
+  Positions are exact rationals.
 -/
 import Honeycomb.Model.Session
 import Honeycomb.Model.Kernels.VertexInsertion
@@ -43,12 +40,12 @@ def txOpK (s : Sess) (toks : List String) : Option (P Val String) :=
   | ["insv", e, nd1, nd2, t] => do
       let e ← e.toNat?; let nd1 ← nd1.toNat?; let nd2 ← nd2.toNat?
       let t ← (if t = "-" then some none else (parseRat t).map some)
-      some (unit (insertVertexOnEdge n s.m e nd1 nd2 t))
+      some (unit (insertVertexOnEdge n e nd1 nd2 t))
   | "insvs" :: e :: rest => do
       let e ← e.toNat?
       let (ds, rest) ← takeDarts rest
       let ts ← allSomeK (rest.map parseRat)
-      some (unit (insertVerticesOnEdge n s.m e ds ts))
+      some (unit (insertVerticesOnEdge n e ds ts))
   | "fan" :: f :: rest => do
       let f ← f.toNat?
       let (ds, rest) ← takeDarts rest
